@@ -115,6 +115,17 @@ private:
     chrono::day _d;
 };
 
+// Defined here because the conversion goes through year_month_day.
+constexpr year_month_day_last::operator sys_days() const noexcept
+{
+    return static_cast<sys_days>(year_month_day{year(), month(), day()});
+}
+
+constexpr year_month_day_last::operator local_days() const noexcept
+{
+    return local_days{static_cast<sys_days>(*this).time_since_epoch()};
+}
+
 [[nodiscard]] constexpr auto operator==(year_month_day const& lhs, year_month_day const& rhs) noexcept -> bool
 {
     return lhs.year() == rhs.year() and lhs.month() == rhs.month() and lhs.day() == rhs.day();
